@@ -2,10 +2,27 @@
 
 package server
 
-import "sync/atomic"
+import (
+	"sync/atomic"
+
+	"github.com/zilliztech/milvus-cdc/server/model/meta"
+)
 
 // verifSkipConnect is set by the verification harness (/verif) so that request validation does not
 // dial the real downstream. It is only compiled with the build tag "verif".
 var verifSkipConnect atomic.Bool
 
 func verifSkipConnectProbe() bool { return verifSkipConnect.Load() }
+
+// verifEntityFactory, when set by the verification harness, builds the per-target replication entity
+// instead of newReplicateEntity (which dials etcd, the MQ and the downstream).
+var verifEntityFactory atomic.Value // func(e *MetaCDC, info *meta.TaskInfo) (*ReplicateEntity, error)
+
+func verifNewReplicateEntity(e *MetaCDC, info *meta.TaskInfo) (*ReplicateEntity, bool, error) {
+	f, ok := verifEntityFactory.Load().(func(e *MetaCDC, info *meta.TaskInfo) (*ReplicateEntity, error))
+	if !ok || f == nil {
+		return nil, false, nil
+	}
+	ent, err := f(e, info)
+	return ent, true, err
+}
